@@ -65,6 +65,18 @@ func init() {
 			if !okParse {
 				continue
 			}
+			// an input whose slices have spare capacity (as append-grown slices do): writes past their length
+			// by a later Merge would show up in earlier results
+			{
+				d := ds[0]
+				d.Attributes = append(make([]*dictionary.Attribute, 0, len(d.Attributes)+8), d.Attributes...)
+				d.Values = append(make([]*dictionary.Value, 0, len(d.Values)+8), d.Values...)
+				d.Vendors = append(make([]*dictionary.Vendor, 0, len(d.Vendors)+8), d.Vendors...)
+				for _, v := range d.Vendors {
+					v.Attributes = append(make([]*dictionary.Attribute, 0, len(v.Attributes)+8), v.Attributes...)
+					v.Values = append(make([]*dictionary.Value, 0, len(v.Values)+8), v.Values...)
+				}
+			}
 			before := make([]string, k)
 			for j, d := range ds {
 				before[j] = dictSnapshot(d)
@@ -110,7 +122,17 @@ func init() {
 			if firstResult != nil {
 				other := ds[k-1]
 				dictionary.Merge(ds[0], other)
-				dictionary.Merge(firstResult, &dictionary.Dictionary{Attributes: []*dictionary.Attribute{{Name: "ZZ", OID: dictionary.OID{250}, Type: dictionary.AttributeString}}})
+				fresh := func() *dictionary.Dictionary {
+					return &dictionary.Dictionary{
+						Attributes: []*dictionary.Attribute{{Name: "ZZ", OID: dictionary.OID{250}, Type: dictionary.AttributeInteger}},
+						Values:     []*dictionary.Value{{Attribute: "ZZ", Name: "zz1", Number: 1}, {Attribute: "ZZ", Name: "zz2", Number: 2}},
+						Vendors: []*dictionary.Vendor{{Name: "ZZV", Number: 64999,
+							Attributes: []*dictionary.Attribute{{Name: "ZZVA", OID: dictionary.OID{1}, Type: dictionary.AttributeInteger}},
+							Values:     []*dictionary.Value{{Attribute: "ZZVA", Name: "zzv", Number: 3}}}},
+					}
+				}
+				dictionary.Merge(ds[0], fresh())
+				dictionary.Merge(firstResult, fresh())
 				if s := dictSnapshot(firstResult); s != firstSnap {
 					c.Fail("spec", "Merge", tag, strings.Join(texts, "---\n"), s, firstSnap, "a later Merge changed an earlier result (aliasing)")
 				}
